@@ -205,7 +205,8 @@ partial def obsPVal (S : Schema) : Val → String
         else
           match materialize S f v with
           | .msg c' sl' ow' u' cur' =>
-            if !ow' && !f.repeated && eqDefault S (.msg c') (.msg c' sl' ow' u' cur') && u'.isEmpty then " [fresh]"
+            if !ow' && !f.repeated && eqDefault S (.msg c') (.msg c' sl' ow' u' cur') && u'.isEmpty
+                && (match dumpVal S (.msg c' sl' ow' u' cur') with | .ok [] => true | _ => false) then " [fresh]"
             else s!" [{obsPVal S (.msg c' sl' ow' u' cur')}]"
           | v' => s!" [{obsPVal S v'}]"
       | _, _ => " [?]"
